@@ -89,7 +89,7 @@ pub struct W4Cfg {
     pub rig: RigCfg,
     /// per slave: deviation of the *slave's* expectation from the master's options:
     /// 0 = matches, 1 = slave expects another configuration, 2 = slave has another ident,
-    /// 3 = the station does not exist (never answers)
+    /// 3 = the station does not exist (never answers), 4 = the slave is locked by another DP master
     pub slave_dev: Vec<u8>,
     pub gc_every_visit: bool,
     pub high_prio: bool,
@@ -299,6 +299,12 @@ impl Exec {
             match cfg.slave_dev.get(i).copied().unwrap_or(0) {
                 1 => s.cfg = vec![0x99],
                 2 => s.ident = p.ident ^ 0x0101,
+                4 => {
+                    // owned by a foreign DP master (#1) and in data exchange with it: diagnostics name master 1,
+                    // our Set_Prm is acknowledged but not executed, our Data_Exchange is refused (RS)
+                    s.master = Some(1);
+                    s.state = crate::dprig::SlaveState::DataExch;
+                }
                 _ => {}
             }
             slaves.push(s);
@@ -981,7 +987,10 @@ impl Exec {
     fn c08_events(&mut self) {
         for (i, e) in self.last_events.clone() {
             if e == PeripheralEvent::Offline {
-                if self.mon.per[i].probing && self.mon.per[i].last_req.is_none() {
+                // "exactly one Offline event is raised and the peripheral is only probed with diagnostics requests
+                // until it answers": while no probe has been answered, a further Offline event is a duplicate —
+                // whether or not (unanswered) probes were sent in between
+                if self.mon.per[i].probing {
                     self.violation("c08.duplicate_offline_event", format!("second Offline event for peripheral {i} without an answered request in between"));
                     return;
                 }
